@@ -101,11 +101,13 @@ func (c *cache) flushScheduler() {
 					case <-c.closeCh:
 						return
 					}
-					b = sortedAddrs[i:i]
 					bs = 0
-				}
-				if handledAddr {
-					break
+					if handledAddr {
+						// addr has gone with the batch, the next one starts after it.
+						b = sortedAddrs[i+1 : i+1]
+						break
+					}
+					b = sortedAddrs[i:i]
 				}
 				b = b[:len(b)+1]
 				bs += addrs[addr]
